@@ -27,6 +27,7 @@ type c20Pure struct {
 	TrampErr  int   `json:"trampoline_error_at"` // 0 = never
 	Patterns  []int `json:"pattern_list"`        // permutation/subset of the five pattern kinds
 	Otherwise bool  `json:"with_otherwise"`
+	EffPanic  bool  `json:"effect_of_first_match_panics"`
 	Arity     int   `json:"adapter_arity"`
 }
 
@@ -56,6 +57,7 @@ func genC20Pure(t *simrt.Tape) c20Pure {
 		pool = append(pool[:j], pool[j+1:]...)
 	}
 	p.Otherwise = t.Bool(1, 2)
+	p.EffPanic = t.Bool(1, 4)
 	p.Arity = 1 + t.Choose(6)
 	return p
 }
@@ -358,8 +360,16 @@ func (sc *c20Scenario) runPure(s *simrt.Sim, h *Hist) {
 				bad("comp-data", "NewCompData-nil-for-matching-arguments", "NewCompData returned nil for arguments that match the declared type: "+pr.name)
 				continue
 			}
+			applied := 0
 			mk := func(kind int) fpgo.Pattern {
-				eff := func(v interface{}) interface{} { return []interface{}{kind, v} }
+				eff := func(v interface{}) interface{} {
+					applied++
+					if p.EffPanic && applied == 1 {
+						// fault: the user's effect itself fails; that is the caller's panic, not "no pattern accepts"
+						panic("effect-boom")
+					}
+					return []interface{}{kind, v}
+				}
 				switch kind {
 				case 0:
 					return fpgo.InCaseOfKind(reflect.Int, eff)
@@ -402,6 +412,7 @@ func (sc *c20Scenario) runPure(s *simrt.Sim, h *Hist) {
 			for _, via := range []string{"MatchFor", "Either"} {
 				var got interface{}
 				var pan interface{}
+				applied = 0
 				func() {
 					defer func() { pan = recover() }()
 					if via == "MatchFor" {
@@ -411,6 +422,12 @@ func (sc *c20Scenario) runPure(s *simrt.Sim, h *Hist) {
 					}
 				}()
 				ctx := fmt.Sprintf("%s of %s against pattern kinds %v (0 kind-int, 1 sum type, 2 equal 42, 3 regex ^ab+$, 4 kind-string) otherwise=%v", via, pr.name, p.Patterns, p.Otherwise)
+				if want >= 0 && p.EffPanic {
+					if pan != "effect-boom" || applied != 1 {
+						bad("pattern-matching", "panic-of-the-matching-effect-not-propagated", fmt.Sprintf("%s, the effect of the first accepting pattern (kind %d) panics: MatchFor returned %v / panicked with %v after applying %d effects; want that panic to reach the caller and no other effect applied", ctx, want, got, pan, applied))
+					}
+					continue
+				}
 				if want < 0 {
 					if pan == nil {
 						bad("pattern-matching", "no-panic-although-no-pattern-accepts", fmt.Sprintf("%s returned %v, want a panic (no pattern accepts)", ctx, got))
